@@ -7,7 +7,7 @@ Correspondence: generated vault histories run on the real sqlite vault (in memor
 the cosmosdb vault over the package's fake client; every Exists / Search / List observation is judged in
 Coq (a) by the property monitor relative to the specification store (kind 2 = violation) and (b)
 against the model's own answer (kind 1 = broken correspondence). For cosmosdb, whose fake ignores query
-text, the text and parameters of buildSearchQuery are parsed into the Query.v AST, compared with the
+text, the text and parameters of buildSearchQuery and of List are parsed into the Query.v AST, compared with the
 model's AST and evaluated in Coq over the raw search items the vault actually wrote.
 """
 import json
@@ -25,11 +25,14 @@ HINT = {("sqlite", "exists", "value"): "S1-like: Exists answers wrongly (origina
         ("crash", None, "value"): "a background goroutine of the code under test killed the process (original defect S3: List used the connection after returning it to the pool)",
         ("cosmos", "update", "value"): "S7-like: the search item written by UpdatePlan differs from the plan (original defect S7: swarm dropped, the plan vanishes from every query)",
         ("cosmos", "create", "value"): "the search item written by Create differs from the plan",
+        ("cosmos", "list-text", "value"): "the query cosmosdb List sends, evaluated over the search items actually written, is not the first <limit> plans newest first",
         ("cosmos", "query-text", "value"): "the query cosmosdb emits, evaluated over the search items actually written, does not select the matching plans"}
 
 WHAT = {1: "result (nil / error) of a mutation", 2: "cosmosdb search item written by the mutation",
         3: "Exists", 4: "Search", 5: "List", 6: "text/parameters of cosmosdb buildSearchQuery (AST differs from the model's)",
-        7: "cosmosdb buildSearchQuery evaluated over the search items actually written"}
+        7: "cosmosdb buildSearchQuery evaluated over the search items actually written",
+        8: "text/parameters cosmosdb List sends (AST differs from the model's)",
+        9: "the query cosmosdb List sends, evaluated over the search items actually written"}
 
 
 def triples(r):
@@ -49,15 +52,16 @@ def merge_hist(cases, prefix):
 
 def run(ctx):
     ctx.static_and_proofs("query")
-    n = 234 if ctx.tier == "quick" else 3900
-    cases = ctx.harness("c15", ["-n", str(n), "-tier", ctx.tier, "-scratch", ctx.work])
+    n = 234 if ctx.tier == "quick" else 15600
+    cases = ctx.harness("c15", ["-n", str(n), "-tier", ctx.tier, "-scratch", ctx.work, "-procs", str(max(4, fw.NCPU // 2))], timeout=3000)
     if cases is None:
         ctx.evidence(dict(evaluations=0, distinct_nontrivial=0, rule="harness did not run", samples=[]))
         return
     crashed = [c for c in cases if not c.get("coq")]
     live = [c for c in cases if c.get("coq")]
     terms = [c["coq"] for c in live]
-    results, infos = fw.eval_cases(ctx.work, "query", HEADER, "case", "check_case", "case_ok", terms)
+    results, infos = fw.eval_cases(ctx.work, "query", HEADER, "case", "check_case", "case_ok", terms,
+                                    shards=(fw.NCPU if ctx.tier == "quick" else 4 * fw.NCPU), timeout=3000)
     for info in infos:
         ctx.oblige("corr_ok shard %d (%d histories): forallb case_ok cases = true" % (info["shard"], info["n"]), info["rc"] == 0)
 
@@ -110,7 +114,7 @@ def run(ctx):
 
     steps = sum(c["dist"]["steps"] for c in live)
     obs_steps = sum(v for c in live for k, v in (c["dist"].get("hist") or {}).items()
-                    if k in ("step:exists", "step:search", "step:list", "step:query-text"))
+                    if k in ("step:exists", "step:search", "step:list", "step:query-text", "step:list-text"))
     ctx.evidence(dict(
         evaluations=obs_steps,
         distinct_nontrivial=fw.distinct_nontrivial(live),
@@ -118,7 +122,7 @@ def run(ctx):
              "on a fresh vault with 0-12 plans (thorough: up to 30), interleaved with Exists probes, a partial battery in the middle and a full "
              "battery at the end (Exists of every id incl. deleted / never created / nil; all 7 filter-kind combinations single- and multi-valued "
              "incl. unknown ids, absent groups, repeated values, status 150; Running; all statuses; all ids; the empty filter; List limits "
-             "-1,0,1,n-1,n,n+1). evaluations = observations judged (Exists + Search + List + parsed cosmos query texts); distinct = distinct "
+             "-1,0,1,n-1,n,n+1). evaluations = observations judged (Exists + Search + List + parsed cosmos Search and List query texts); distinct = distinct "
              "(history, observations) by hash; non-trivial = at least 2 live plans at the end and more than 10 steps",
         samples=[dict(id=c["id"], backend=c["kind"], dist={k: v for k, v in c["dist"].items() if k != "hist"},
                       first_steps=c["observed"][:6], last_steps=c["observed"][-3:]) for c in live[3:6]],
@@ -134,6 +138,7 @@ def run(ctx):
             search_result_sizes=merge_hist(live, "search-results:"),
             list_limit=merge_hist(live, "limit:"),
             list_skipped=merge_hist(live, "list:"),
+            cosmos_list_text_limit=merge_hist(live, "list-text-limit:"),
             exists=merge_hist(live, "exists:"),
             step_kinds=merge_hist(live, "step:"),
             final_statuses=fw.histogram(s for c in live for s, k in c["dist"]["statuses"].items() for _ in range(k)),
@@ -144,7 +149,7 @@ def run(ctx):
         "SQLite and the Cosmos query engine are trusted to implement Query.run_query for the AST the code emits (ORDER BY ties: any order)",
         "UpdatePlan is only called with a plan object that agrees with the stored plan in id, group, name, description (what the engine does)",
         "cosmosdb Search/List through the package fake are only compared as sets and only for id filters / limit <= 0: the fake ignores the "
-        "query text, ORDER BY and (by a type assertion on int) panics on @limit; the text tie covers Search, not List",
+        "query text, ORDER BY and (by a type assertion on int) panics on @limit; the text ties (hooks VerifSearchQuery, VerifListQuery) cover what the real service would be sent",
         "NeverClosed is observed with a 2 s idle deadline; State.Start / State.End of results are not compared (C13)",
         "Not covered: the real Cosmos service; SQLite connection-pool exhaustion by consumers that abandon a stream; context cancellation mid-stream",
     ])
